@@ -80,6 +80,28 @@ def compare(ctx, impl_lines, label):
         ctx.sample(l)
 
 
+def confirm_alone(ctx, h, limit=80):
+    """A violating case may be the victim of an earlier one (all cases of a run share one golua runtime, and a
+    broken protected call can leave pending values or continuations behind).  Re-run the shortest violating
+    programs alone: those that fail alone are the ones to report first; the others are kept, marked."""
+    cands = [v for v in ctx.violations if v.found_input and v.key.split(" ")[0] in ("pcall", "co", "trail", "coclose")]
+    cands.sort(key=lambda v: (len(v.key), v.key))
+    for v in cands[:limit]:
+        variant, prog, hs = v.key.split(" ")
+        rc, out, err = common.run_harness(h, ["replay", variant, prog, hs])
+        line = out.strip().split("\n")[-1] if out.strip() else ""
+        if not line:
+            continue
+        exp = common.run_oracle("c10", [line])[0]
+        got = line.partition(" = ")[2].split(" ")[0]
+        if exp != "bad-line" and got == exp.split(";")[0]:
+            v.found_input = False
+            v.desc += "  [passes when run alone: fails only after earlier cases in the same runtime]"
+    for v in cands[limit:]:
+        v.found_input = False
+        v.desc += "  [not re-run alone]"
+
+
 def run(ctx):
     ctx.rule = ("cases = (variant, program, handler behaviours): chains of up to 3 nested constructs (do-block, loop, pcall'd function, "
                 "called function, generic for with a closing value) with to-be-closed declarations before/after every construct (<= 3), every "
@@ -111,11 +133,13 @@ def run(ctx):
     lines = out.split("\n")[:-1]
     compare(ctx, lines, "chains")
     ctx.extra["chain_lines"] = len(lines)
-    n = 6000 if ctx.tier == "quick" else 100000
+    n = 4000 if ctx.tier == "quick" else 100000
     rc, out, err = common.run_harness(h, ["random", str(n)])
     if rc != 0:
         raise common.BuildError("c10 harness failed: " + err[-2000:])
     compare(ctx, out.split("\n")[:-1], "random")
+    if ctx.violations:
+        confirm_alone(ctx, h)
 
 
 def replay(ctx, path):
